@@ -853,8 +853,71 @@ impl<'a> Trace<'a> {
             return Ok(());
         };
         sql.wipe_account()?;
+        // Often an EARLIER, completed migration of the same account is on file as well (retained
+        // history), mined at heights around the truncation target: the wallet's truncation walks
+        // every stored migration, and whatever it does to one record it must do atomically.
+        let mut earlier: Option<(zcash_client_sqlite::pool_migration::MigrationUuid, MigrationState)> = None;
+        if !translated.transactions().is_empty() && self.rng.gen_bool(0.45) {
+            let span = (depth + 3).min(w_tip.saturating_sub(2)).max(1);
+            let txs: Vec<_> = translated
+                .transactions()
+                .iter()
+                .map(|t| {
+                    let h = w_tip - self.rng.gen_range(0..span);
+                    fixtures::rebuild_tx(t, |p| {
+                        p.state = MigrationTxState::Mined { txid: t.txid(), height: bh(h) };
+                        p.unsatisfiable = None;
+                        p.broadcast_failure_at = None;
+                    })
+                })
+                .collect();
+            let h_state = fixtures::with_txs(&translated, MigrationStatus::Complete, txs);
+            sql.replace(&h_state)?;
+            let l = sql.list()?;
+            if let Some((id, _)) = l.first() {
+                earlier = Some((*id, h_state));
+            }
+        }
         sql.replace(&translated)?;
-        let (_, got_h) = sql.wallet_truncate(depth)?;
+        let truncated = sql.wallet_truncate(depth);
+        let mut hist_viols: Vec<Viol> = vec![];
+        if let Some((id, h_state)) = &earlier {
+            self.sh.r.count("wallet_truncations_with_an_earlier_complete_migration", 1);
+            let h_now = sql.by_id(*id)?;
+            let cur_now = if model::terminal(translated.status()) { sql.latest()? } else { sql.get()? };
+            let viols = &mut hist_viols;
+            match &truncated {
+                Err(e) => {
+                    self.sh.r.count("wallet_truncations_refused_with_history", 1);
+                    if h_now.as_ref() != Some(h_state) || cur_now.as_ref() != Some(&translated) || sql.wallet_tip() != w_tip {
+                        let f = h_now.as_ref().map(|x| model::first_difference(x, h_state)).unwrap_or("missing".into());
+                        viols.push(Viol {
+                            class: format!("C18:persist:sqlite:failed-wallet-truncation-changed-stored-migrations:{f}"),
+                            detail: format!("truncate_to_height({depth} below the tip) returned an error ({}) but the stored migrations changed: earlier record differs in {f}", e.chars().take(120).collect::<String>()),
+                        });
+                    }
+                }
+                Ok((_, got_h)) => {
+                    let mut want_h = h_state.clone();
+                    want_h.truncate_to_height(bh(*got_h));
+                    if h_now.as_ref() != Some(&want_h) {
+                        let f = h_now.as_ref().map(|x| model::first_difference(x, &want_h)).unwrap_or("missing".into());
+                        viols.push(Viol {
+                            class: format!("C18:persist:sqlite:wallet-truncation-of-earlier-migration-differs-from-truncate_to_height:{f}"),
+                            detail: format!("wallet truncated to {got_h}; the EARLIER (completed) migration of the account reads back different from MigrationState::truncate_to_height applied to what was saved ({f}); it now has {} transactions, saved {}", h_now.as_ref().map_or(0, |x| x.transactions().len()), h_state.transactions().len()),
+                        });
+                    }
+                }
+            }
+            if truncated.is_err() {
+                sql.regrow();
+                sql.wipe_account()?;
+                self.store.last_written = None;
+                self.report(hist_viols, json!({"wallet_truncate_depth": depth, "with_earlier_complete_migration": true}));
+                return Ok(());
+            }
+        }
+        let (_, got_h) = truncated?;
         let loaded = if model::terminal(expected.status()) {
             sql.latest()?
         } else {
@@ -865,7 +928,7 @@ impl<'a> Trace<'a> {
         sql.wipe_account()?;
         self.store.last_written = None;
         self.sh.r.count("wallet_driven_truncations", 1);
-        let mut viols = vec![];
+        let mut viols = hist_viols;
         if i64::from(got_h) - delta != i64::from(achieved) {
             self.sh.r.count("wallet_truncated_lower_than_requested", 1);
         }
